@@ -298,6 +298,11 @@ func (x *Exec) showVal(v Val) string {
 			return fmt.Sprint(u.C)
 		}
 		return "sym"
+	case OpaqueV:
+		if u.F != nil {
+			return fmt.Sprint(*u.F)
+		}
+		return "sym"
 	case StrV:
 		if s, ok := u.concrete(); ok {
 			return fmt.Sprintf("%q", s)
